@@ -280,7 +280,9 @@ def symbolic_state(w, state, tag="", constrain_domain=True):
         row[idx['reach']] = r
         row[idx['disc']] = d
         row[idx['acc']] = ac
-        pre[a] = dict(comp=c, reach=r, disc=d, acc=ac)
+        # ghost variable: the order in which hosts were compromised (well-founded support)
+        rk = src.int("%s_rank" % nm, 0, len(w.addrs))
+        pre[a] = dict(comp=c, reach=r, disc=d, acc=ac, rank=rk)
     return pre
 
 
@@ -342,7 +344,25 @@ def inv(w, st):
         cs.append(z3.Implies(z3.And(d == 1, z3.Not(public(w, a[0]))), support))
         # public subnets are discovered from reset on
         cs.append(z3.Implies(public(w, a[0]), d == 1))
+        # a compromised host of a non-public subnet was reachable when it was compromised: some
+        # host compromised EARLIER (ghost rank) sits in a connected subnet - no self-support
+        if 'rank' in st[a]:
+            earlier = [z3.And(st[g]['comp'] == 1, tz(w, g[0], a[0]), st[g]['rank'] < st[a]['rank'])
+                       for g in w.addrs if g != a and 'rank' in st[g]]
+            cs.append(z3.Implies(c == 1, z3.Or([public(w, a[0])] + earlier)))
     return z3.And(cs)
+
+
+def post_ranks(w, st, post):
+    """ranks witnessing Inv for the state after a step: hosts keep their rank, a newly
+    compromised host is the latest"""
+    out = {}
+    for a in w.addrs:
+        d = dict(post[a])
+        if 'rank' in st[a]:
+            d['rank'] = z3.If(st[a]['comp'] == 1, st[a]['rank'], z3.IntVal(len(w.addrs) + 1))
+        out[a] = d
+    return out
 
 
 def initial(w, st):
